@@ -277,4 +277,9 @@ def eos_cells(tier, seed, template_only=False, nv=12, window=False):
         for tnr in ([0.8, 0.9] if tier == "quick" else [0.7, 0.8, 0.9, 0.95]):
             for Tc in ([1.0, 50.0] if tier == "quick" else [1e-2, 1.0, 50.0]):
                 cells.append(dict(eos="twostep", Tn=tnr * Tc, par=dict(Tc=Tc), tag=f"tn{tnr}_Tc{Tc}", nv=nv))
+        # very small numbers in the user's units (an MeV-scale transition in GeV): energy densities ~1e-11, next to the
+        # solver's default absolute tolerance 1e-10
+        for Tc in ([1e-3] if tier == "quick" else [1e-3, 3e-3]):
+            cells.append(dict(eos="bag", Tn=0.8 * Tc, par=dict(psi=0.8, Tc=Tc), tag=f"psi0.8_tn0.8_Tc{Tc}", nv=nv))
+            cells.append(dict(eos="twostep", Tn=0.9 * Tc, par=dict(Tc=Tc), tag=f"tn0.9_Tc{Tc}", nv=nv))
     return cells
